@@ -389,7 +389,7 @@ def plan(tier, seed):
     if tier == "quick":
         lay = [("numpy", 9, 3, 4)] * 11 + [("jax", 3, 1, 1)] * 2 + [("pytorch", 5, 1, 2)] * 2 + [("tensorflow", 2, 1, 1)]
     else:
-        lay = [("numpy", 260, 40, 120)] * 10 + [("jax", 40, 6, 20)] * 2 + [("pytorch", 100, 10, 40)] * 2 + [("tensorflow", 30, 4, 15)] * 2
+        lay = [("numpy", 700, 100, 320)] * 10 + [("jax", 100, 15, 50)] * 2 + [("pytorch", 250, 25, 100)] * 2 + [("tensorflow", 80, 10, 40)] * 2
     return [{"backend": b, "n_count": a, "n_layout": l, "n_gen": g, "seed": seed * 3267000013 + i} for i, (b, a, l, g) in enumerate(lay)]
 
 
